@@ -109,4 +109,3 @@ func c04CfContract(r *Report, p *Prog) {
 	sort.Strings(bad)
 	r.Check(len(bad) == 0 && fields["h"], "CF-CONTRACT", "the compression function depends on the chaining value only", pos, fmt.Sprintf("cf and its callees (%d functions) access no field of the hash state other than h", len(seen))+ifs(len(bad) > 0, ": "+strings.Join(firstN(bad, 3), "; ")))
 }
-
